@@ -600,7 +600,11 @@ theorem C07_table_within_known : TableOK Generated.C07Access.table = true := by 
 /-- every typed boundary is at least as strict as the known findings say -/
 theorem C07_boundaries_within_known : BoundariesOK Generated.C07Access.boundary = true := by decide
 
-/-- the translator recognised every shape -/
+/-- `new` runs the abstract test and the completeness validation on every call (what `Model.Inst.newRun` and
+the two theorems above about sequences of `new` presume about the glue) -/
+theorem C07_inst_glue_every_call : Generated.C07Access.instGlue = ⟨true, true⟩ := by decide
+
+/-- the translator recognised every shape, and no enforcement call sits inside a function literal -/
 theorem C07_no_shape_change : Generated.C07Access.shapeNotes = [] := by decide
 
 end C07
